@@ -515,6 +515,13 @@ def _flip_conf(kind):
                     dd[k] = 2
             if dd:
                 rules[r.unique_id] = dd
+    elif kind == "flipH":
+        # the 81 rules that ship disabled are switched on (block comments, prefix/suffix naming, ...): no other configuration ever runs them
+        o = vhdlFile_pkg.vhdlFile([""])
+        rl = rule_list.rule_list(o, base.severity_list)
+        for r in rl.rules:
+            if r.disable and not rule_list.is_rule_deprecated(r):
+                rules[r.unique_id] = {"disable": False}
     if kind == "flipG":
         # user-ordered pragma patterns (single before open/close, as a user may well write them); precedence must not depend on the order
         pats = base.dConfig["pragma"]["patterns"]
@@ -526,7 +533,7 @@ def _flip_conf(kind):
 
 
 def get_conf2(name):
-    if name in ("flipA", "flipB", "flipC", "flipD", "flipE", "flipF", "flipG"):
+    if name in ("flipA", "flipB", "flipC", "flipD", "flipE", "flipF", "flipG", "flipH"):
         if name not in _CONF:
             _CONF[name] = _flip_conf(name)
         return _CONF[name]
@@ -753,9 +760,9 @@ def pick_params(prop, tier, seed):
     for k, f in enumerate(files):
         conf = "default"
         if tier == "thorough":
-            conf = ["default", "jcl", "flipA", "flipB", "flipC", "flipD", "flipE", "flipF", "flipG"][(k + 3 * seed) % 9]  # three seeds see three different configurations per fixture
+            conf = ["default", "jcl", "flipA", "flipB", "flipC", "flipD", "flipE", "flipF", "flipG", "flipH"][(k + 3 * seed) % 10]  # three seeds see three different configurations per fixture
         elif k % 3 == 2:
-            conf = ["jcl", "flipA", "flipB", "flipC", "flipD", "flipE", "flipF"][(k // 3) % 7]
+            conf = ["jcl", "flipA", "flipB", "flipC", "flipD", "flipE", "flipF", "flipH"][(k // 3) % 8]
         if isinstance(f, tuple):
             f, conf = f
         cl = code_lines(f)
@@ -768,7 +775,7 @@ def pick_params(prop, tier, seed):
     # structural neighbourhoods: layout alternatives at 3 positions of a window (engine-forked), full pipeline on each
     if prop in ("C01", "C02", "C03", "C07", "C08", "C09", "C10", "C18", "C19"):
         nv = 12 if tier == "quick" else 200
-        for f in rnd.sample(ALL_FIXTURES, nv):
+        for j, f in enumerate(rnd.sample(ALL_FIXTURES, nv)):
             txt = read_fixture(f)
             cl = [i for i in code_lines(f) if line_is_relayoutable(txt[i])]
             if not cl:
@@ -777,7 +784,8 @@ def pick_params(prop, tier, seed):
             hot = [k - 1 for k in violations_by_line(f) if 1 <= k - 1 < len(txt) and line_is_relayoutable(txt[k - 1])]
             lo = rnd.choice(hot) if (hot and rnd.random() < 0.67) else rnd.choice(cl)
             lo = max(0, lo - rnd.randrange(2))
-            out.append({"prop": prop, "fixture": f, "window": [lo, lo + 1], "conf": "default", "vary": 3, "vary_seed": rnd.randrange(10**6)})
+            vconf = "default" if tier == "quick" else ["default", "flipB", "default", "jcl", "default", "flipA", "default", "flipH", "default", "flipE"][j % 10]
+            out.append({"prop": prop, "fixture": f, "window": [lo, lo + 1], "conf": vconf, "vary": 3, "vary_seed": rnd.randrange(10**6)})
     return out
 
 
@@ -813,7 +821,7 @@ def make_L(prop, title, extra_functions=()):
         functions = ("vsg.tokens", "vsg.vhdlFile", "vsg.rule_list", "vsg.rule", "vsg.rules", "vsg.token_map", "vsg.parser") + tuple(extra_functions)
         stubs = ()
         assumptions = ("the token structure of the input (which tokens, line breaks, comments) is that of the corpus fixture; only the letter case inside the window is symbolic",)
-        bounds = "corpus fixtures (the 957 tests/*/rule_*_test_input.vhd files copied to /verif/corpus) x a window of 1-2 lines whose letters outside comments each carry a symbolic case bit x configuration in {default, jcl, flipA..flipF}; plus layout-variation explorations (engine-forked alternatives at 3 positions of a window). quick: pinned pairs + 60 (30 for C06/C08/C09) fixtures and 12 layout windows chosen by VERIF_SEED mod 3, <=24 paths each; thorough: every fixture (480 for C06/C08/C09) and 200 layout windows, <=64 paths each"
+        bounds = "corpus fixtures (the 957 tests/*/rule_*_test_input.vhd files copied to /verif/corpus) x a window of 1-2 lines whose letters outside comments each carry a symbolic case bit x configuration in {default, jcl, flipA..flipH}; plus layout-variation explorations (engine-forked alternatives at 3 positions of a window). quick: pinned pairs + 60 (30 for C06/C08/C09) fixtures and 12 layout windows chosen by VERIF_SEED mod 3, <=24 paths each; thorough: every fixture (480 for C06/C08/C09) and 200 layout windows, <=64 paths each"
         outside = "token structures not in the corpus; symbolic whitespace widths; comment text"
         min_conclusive_share = 0.5
         exception_props = (prop, "C19")
